@@ -216,6 +216,28 @@ CHECKS = {
             'deterministic simulation (history search): seeded class-forest '
             'histories on three replicas against an executable reference '
             'resolver'),
+    'C09': ('mof', 'exploration',
+            'histories of 2-6 compiles on one MOFCompiler / one mock '
+            'connection over a generated file tree (include files to depth '
+            '3, search path with qualifiers.mof and a class chain): valid '
+            'units, one token-level damage per damaged compile (15 kinds '
+            'incl. unterminated strings/comments, bad escapes, huge numbers, '
+            'malformed pragmas, undefined aliases, type/value mismatches, '
+            'broken embedded instance values), repository faults (9 methods '
+            'x k-th call x CIM status 1..28, once or persistent) through a '
+            'FaultyRepo wrapper, include faults (self / mutual / missing '
+            'include, directory, non UTF-8, empty, BOM, CRLF); the history '
+            'runs in a forked child so that a compile that does not '
+            'terminate is killed and reported; oracles: exception type, '
+            'position inside the named file, recovery = the final valid unit '
+            'gives the same repository as a fresh compiler on a copy',
+            'totality over arbitrary text is only sampled as far as the '
+            'damaged units reach; any OSError is accepted; recovery is '
+            'judged only after at least one failed compile; positions with '
+            'file None in units with embedded instance values are not judged',
+            'deterministic simulation: seeded compile histories with '
+            'repository / include-tree fault injection, hang detection by a '
+            'supervising parent process, recovery against a fresh twin'),
 }
 
 ENGINES = [
@@ -231,7 +253,7 @@ ENGINES = [
     {'name': 'store', 'path': 'simkit/store.py',
      'kind_free_text': 'model-based history machine over FakedWBEMConnection '
      'with reference models and fault enumeration'},
-    {'name': 'mof', 'path': 'simkit/mofworld.py',
+    {'name': 'mof', 'path': 'simkit/mofgen.py',
      'kind_free_text': 'MOF compile histories against a fault-injecting '
      'repository handle and a simulated include tree'},
 ]
